@@ -42,6 +42,20 @@ def _broken_variant(rng, valid_text: str):
     return None, None, 0
 
 
+def _flagged_variant(rng, valid_text: str):
+    """A broken page the compiler is sure to flag: a prefix-less line right behind an item."""
+    from zmon.gen import history as hg
+
+    lines, items = hg.scan(valid_text)
+    if not items:
+        return None
+    _s, e = rng.choice(items)
+    lines.insert(e, rng.choice(["free text without an item prefix", "lost its dash", "TODO no prefix here"]))
+    t = "\n".join(lines)
+    c = harness.compile_text(t, name="probe.zo")
+    return t if (c.exc is None and c.parser_errors and c.page.has_errors) else None
+
+
 def _whitelist(root: Path) -> list[str]:
     f = root / ".zorg" / "error_file_whitelist.txt"
     return [l for l in f.read_text().split("\n") if l] if f.exists() else []
@@ -152,6 +166,50 @@ def run_unit(unit: dict) -> dict:
                     if 0 < len(vr) < before_rows:
                         acc.violation(f"after the refused reindex the index holds {len(vr)} of the page's {before_rows} previous notes", case, cls="partial page left in the index after a refused reindex")
                 acc.sig(("E", kind, r4.rc != 0))
+        # ---- scenario F: the whitelist's life cycle across a reindex that is refused half-way
+        if len(valid) >= 2:
+            by_name = sorted(valid, key=lambda r_: r_.rsplit("/", 1)[-1])
+            a_rel, b_rel = by_name[0], by_name[-1]
+            if a_rel.rsplit("/", 1)[-1] != b_rel.rsplit("/", 1)[-1]:
+                shutil.rmtree(root / ".zorg", ignore_errors=True)
+                (root / victim).write_text(good_text)
+                goods = {}
+                for rel in valid:
+                    c = harness.compile_path(root, Path(rel))
+                    goods[rel] = (root / rel).read_text() if (c.exc is None and not c.parser_errors) else None
+                if goods[a_rel] is None:
+                    goods[a_rel] = good_text if a_rel == victim else None
+                if all(goods.get(x) for x in (a_rel, b_rel)):
+                    bad_a = _flagged_variant(rng, goods[a_rel])
+                    bad_b = _flagged_variant(rng, goods[b_rel])
+                    if bad_a is not None and bad_b is not None:
+                        fcase = dict(case, scenario="F", a=a_rel, b=b_rel)
+                        acc.count("scenarioF.runs")
+                        acc.evaluations += 1
+                        acc.judged += 1
+                        (root / a_rel).write_bytes(bad_a.encode("utf-8", "surrogatepass"))
+                        r1 = db.cli(root, "db", "create", "-f")
+                        (root / a_rel).write_text(goods[a_rel])
+                        (root / b_rel).write_bytes(bad_b.encode("utf-8", "surrogatepass"))
+                        r2 = db.cli(root, "db", "reindex")
+                        (root / b_rel).write_text(goods[b_rel])
+                        r3 = db.cli(root, "db", "reindex")
+                        wl3 = _whitelist(root)
+                        (root / a_rel).write_bytes(bad_a.encode("utf-8", "surrogatepass"))
+                        r4 = db.cli(root, "db", "reindex")
+                        if r1.rc != 0:
+                            acc.violation(f"F1 `db create -f` failed rc={r1.rc}", fcase, cls="db create -f fails")
+                        elif r2.rc == 0:
+                            acc.violation(f"F2 reindex accepted the newly broken, non-whitelisted {b_rel}", fcase, cls="db reindex accepts a non-whitelisted broken page")
+                        elif r3.rc != 0:
+                            acc.violation(f"F3 reindex after repairing everything failed rc={r3.rc} {r3.err[-200:]}", fcase, cls="reindex fails after repair")
+                        else:
+                            if a_rel in wl3:
+                                acc.violation(f"F3 {a_rel} was repaired and reindexed but is still whitelisted: {wl3}", fcase, cls="repaired page stays whitelisted (after a refused run)")
+                            if r4.rc == 0:
+                                d4 = db.dump_index(root)
+                                acc.violation(f"F4 {a_rel} was whitelisted, repaired, and is broken AGAIN: reindex accepted it silently (page rows: {[p_ for p_ in d4.pages if p_['path'] == a_rel]})", fcase, cls="page broken again after repair is accepted silently")
+                        acc.sig(("F", r2.rc != 0, r4.rc != 0))
         acc.sample({"victim": victim, "broken_kind": kind, "bad_text": bad_text[:200]}, cap=2)
     shutil.rmtree(base, ignore_errors=True)
     acc.merge_counts(harness.COUNTERS.take())
